@@ -30,6 +30,10 @@ class Suite:
     def nontrivial(self, case, impl_out):
         return True
 
+    def distinct_key(self, case, impl_out):
+        """what makes two cases 'the same' for the distinct count (default: the input text)"""
+        return "\n".join(case["lines"][0].split()[2:] + case["lines"][1:])
+
     def stats(self, cases, outs):
         return {}
 
@@ -98,7 +102,7 @@ def _run_suite(spec, suite, tier, rng, ctx, budget_scale=1):
         iout = suite.normalize(io["out"])
         outs[cid] = iout
         res["evaluations"] += 1
-        key = "\n".join(c["lines"][0].split()[2:] + c["lines"][1:])
+        key = suite.distinct_key(c, iout)
         if key not in seen and suite.nontrivial(c, iout):
             seen.add(key)
             res["nontrivial"] += 1
